@@ -454,6 +454,10 @@ PROPS["C06"]["claim"] += (" CYCLE DIAGNOSIS IS COMPLETE (cycle_among_requested_s
     "ordering inputs have been walked, so whenever want_file succeeds from an unmarked state no build the target needs is its own ordering ancestor - a "
     "dependency cycle among requested steps therefore always ends in the `dependency cycle` error (it cannot run out of fuel), a cycle closed only by a "
     "validation edge is accepted.")
+PROPS["C06"]["claim"] += (" NO ACYCLICITY HYPOTHESIS NEEDED (never_internal_error_on_any_graph, success_means_all_up_to_date_on_any_graph; Lemmas/SchedReg): "
+    "runLoop_no_bug re-proved under REGIONAL acyclicity (only marked builds need a rank; Work::run never marks a new build), which a successful want phase "
+    "provides (rank = number of ordering ancestors) - so for every graph, cyclic or not, run::build never ends in the BUG panic and success means every wanted step is Done.")
+PROPS["C03"]["claim"] += (" The round-trip theorems no longer assume an acyclic graph (a successful first invocation implies it for what it touched).")
 PROPS["C09"]["claim"] += (" ACROSS INVOCATIONS, FOR EVERY LOG (Lemmas/WorkDisc): start-up (applyLog, records WITH dependency lists) only interns source "
     "files and attaches to each step exactly the dependency list and signature of the LATEST record attributed to it "
     "(remembered_by_every_later_invocation, nothing_remembered_without_record); a success's record is the latest until the next one "
